@@ -73,8 +73,10 @@ pub struct FsState
     pub read_chunk : Option<usize>,
     /// every command script line executed: (task, line)
     pub commands : Vec<(Option<usize>, String)>,
-    /// hook called at the start of every execute_command with (task, script lines)
     pub in_command : bool,
+    /// when Some: at the start of every execute_command, (index into `calls`, script lines, all files outside
+    /// the ruler directory at that instant)
+    pub exec_snapshots : Option<Vec<(usize, Vec<String>, BTreeMap<String, Vec<u8>>)>>,
 }
 
 #[derive(Clone)]
@@ -301,6 +303,7 @@ impl MemSys
                 read_chunk : None,
                 commands : vec![],
                 in_command : false,
+                exec_snapshots : None,
             })),
         }
     }
@@ -636,6 +639,13 @@ impl System for MemSys
         verif_sched::log_event(format!("exec {}", command_script.lines.join(" ; ")));
         let mut g = self.state.lock().unwrap();
         g.record("execute_command", &command_script.lines.join(" ; "), "", true, false);
+        if g.exec_snapshots.is_some()
+        {
+            let at = g.calls.len();
+            let files : BTreeMap<String, Vec<u8>> = g.disk.files.iter().filter(|(p, _)| !(p.starts_with(".ruler/") || *p == ".ruler")).map(|(p, n)| (p.clone(), (*n.content).clone())).collect();
+            let lines = command_script.lines.clone();
+            if let Some(v) = &mut g.exec_snapshots { v.push((at, lines, files)); }
+        }
         g.in_command = true;
         let mut result = vec![];
         for line in command_script.lines.iter()
